@@ -75,8 +75,11 @@ def check_valid_signature(sig: bytes) -> None:
 def check_low_der_signature(sig_pair: tuple[int, int], generator: Any) -> None:
     # IsLowDERSignature
     r, s = sig_pair
-    hi_s = generator.p() - s
-    if hi_s < s:
+    order = generator.order()
+    if r >= order or s >= order:
+        # not a high S but an out-of-range signature: it simply fails to verify
+        return
+    if s > order // 2:
         raise ScriptError("signature has high S value", errno.SIG_HIGH_S)
 
 
